@@ -161,6 +161,9 @@ def check_observers(m, J, s0, flats, observe, program):
     regs = s0.extra['regs']
     mf = lambda mdl: {'family': 'rope', 'program': conc_program(mdl, program, s0), 'observe': list(observe)}
     def run(s, name, args):
+        # every observer starts from a private copy of the state: a call that forks consumes the state it is given
+        s = s.clone()
+        args = [s.extra['regs'][a[1]] if isinstance(a, tuple) and a and a[0] == 'reg' else (s.extra['it'] if a == ('it',) else a) for a in args]
         outs = api.call(m, s, name, args)
         res = []
         for kind, s2, v in outs:
@@ -176,28 +179,28 @@ def check_observers(m, J, s0, flats, observe, program):
             J.prove(m, s, cond, 'C16: %s: %s' % (who, what), lambda mdl, s=s: {'family': 'rope', 'program': conc_program(mdl, program, s), 'observe': list(observe), 'register': ri})
         s = s0
         if 'basic' in observe:
-            for s2, v in run(s, ROPE + '::len', [s.extra['regs'][ri]]): expect(s2, binop('Eq', v, IntV(n, 'usize')), 'len() is not %d' % n)
-            for s2, v in run(s, ROPE + '::is_empty', [s.extra['regs'][ri]]): expect(s2, binop('Eq', v, n == 0), 'is_empty() is not %r' % (n == 0))
-            for s2, v in run(s, "<Rope<'_> as ToString>::to_string", [s.extra['regs'][ri]]):
+            for s2, v in run(s, ROPE + '::len', [('reg', ri)]): expect(s2, binop('Eq', v, IntV(n, 'usize')), 'len() is not %d' % n)
+            for s2, v in run(s, ROPE + '::is_empty', [('reg', ri)]): expect(s2, binop('Eq', v, n == 0), 'is_empty() is not %r' % (n == 0))
+            for s2, v in run(s, "<Rope<'_> as ToString>::to_string", [('reg', ri)]):
                 expect(s2, bytes_eq(list(sv(v).bytes()), flat), 'to_string() differs from the flat string')
-            for s2, v in run(s, ROPE + '::to_bytes', [s.extra['regs'][ri]]):
+            for s2, v in run(s, ROPE + '::to_bytes', [('reg', ri)]):
                 x = sv(v)
                 if isinstance(x, Enum): x = sv(x.payload[x.disc].f[0])
                 bs = list(x.bytes()) if isinstance(x, StrV) else [b.e for b in x.f]
                 expect(s2, bytes_eq(bs, flat), 'to_bytes() differs from the flat string')
             for ch in (10, 97):
-                for s2, v in run(s, ROPE + '::ends_with', [s.extra['regs'][ri], IntV(ch, 'char')]):
+                for s2, v in run(s, ROPE + '::ends_with', [('reg', ri), IntV(ch, 'char')]):
                     exp_ = byte_eq(flat[-1], ch) if n else False
                     expect(s2, binop('Eq', v, exp_) if not isinstance(v, bool) or not isinstance(exp_, bool) else v == exp_, 'ends_with(%r) wrong' % chr(ch))
         if 'bytes' in observe:
             for i in range(n + 2):
-                for s2, v in run(s, ROPE + '::get_byte', [s.extra['regs'][ri], IntV(i, 'usize')]):
+                for s2, v in run(s, ROPE + '::get_byte', [('reg', ri), IntV(i, 'usize')]):
                     if i < n:
                         ok_ = v.disc == 1 and True
                         expect(s2, False if v.disc != 1 else byte_eq(v.payload[1].f[0].e, flat[i]), 'get_byte(%d) wrong' % i)
                     else: expect(s2, v.disc == 0, 'get_byte(%d) is Some beyond the end' % i)
         if 'chars' in observe:
-            for s2, v in run(s, ROPE + '::char_indices', [s.extra['regs'][ri]]):
+            for s2, v in run(s, ROPE + '::char_indices', [('reg', ri)]):
                 s2.extra['it'] = Ref(Cell(v))
                 got = collect_iter(m, J, s2, "<CharIndices<'_, '_> as Iterator>::next", run)
                 for s3, items in got:
@@ -209,7 +212,7 @@ def check_observers(m, J, s0, flats, observe, program):
                     expect(s3, b_and(*conds), 'char_indices() differs from the flat string')
         if 'lines' in observe:
             for trailing, name in ((True, 'lines()'), (False, 'lines_impl(false)')):
-                for s2, v in run(s, ROPE + '::lines_impl', [s.extra['regs'][ri], trailing]):
+                for s2, v in run(s, ROPE + '::lines_impl', [('reg', ri), trailing]):
                     s2.extra['it'] = Ref(Cell(v))
                     for s3, items in collect_iter(m, J, s2, "<rope::Lines<'_, '_> as Iterator>::next", run):
                         exp = split_flat(flat, trailing)
@@ -221,12 +224,12 @@ def check_observers(m, J, s0, flats, observe, program):
                 s = s0
                 fa, fb = flats[a], flats[b]
                 eq = bytes_eq(fa, fb)
-                for s2, v in run(s, "<Rope<'_> as PartialEq>::eq", [s.extra['regs'][a], s.extra['regs'][b]]):
+                for s2, v in run(s, "<Rope<'_> as PartialEq>::eq", [('reg', a), ('reg', b)]):
                     J.prove(m, s2, zb(v) == zb(eq), 'C16: r%d == r%d answers differently from the flat strings' % (a, b), mf)
                 pre = bytes_eq(fa[:len(fb)], fb) if len(fb) <= len(fa) else False
-                for s2, v in run(s, ROPE + '::starts_with', [s.extra['regs'][a], s.extra['regs'][b]]):
+                for s2, v in run(s, ROPE + '::starts_with', [('reg', a), ('reg', b)]):
                     J.prove(m, s2, zb(v) == zb(pre), 'C16: r%d.starts_with(r%d) answers differently from the flat strings' % (a, b), mf)
-                for s2, v in run(s, "<Rope<'_> as PartialEq<&str>>::eq", [s.extra['regs'][a], Ref(Cell(StrV(tuple(fb))))]):
+                for s2, v in run(s, "<Rope<'_> as PartialEq<&str>>::eq", [("reg", a), Ref(Cell(StrV(tuple(fb))))]):
                     J.prove(m, s2, zb(v) == zb(eq), 'C16: r%d == &str(flat of r%d) answers differently from the flat strings' % (a, b), mf)
 
 
@@ -245,7 +248,7 @@ def collect_iter(m, J, s, next_name, run, limit=40):
     while work:
         st, acc = work.pop()
         if len(acc) > limit: raise Inconclusive('iterator yields more than %d items' % limit)
-        for s2, v in run(st, next_name, [st.extra['it']]):
+        for s2, v in run(st, next_name, [('it',)]):
             if v.disc == 0: done.append((s2, acc))
             else: work.append((s2, acc + [v.payload[1].f[0]]))
     return done
@@ -278,10 +281,12 @@ def with_indices_job(jid, text, kind='str', flavour='mir'):
             J.fail_path(m, s, 'C19: WithIndices::substring reaches an unsafe operation outside its precondition / panics: %r' % (v,), mf); continue
         mdl = J.model(m, s.pc)
         iv_, jv_ = mval(mdl, i), mval(mdl, j)
-        if not (m.valid(s, i == iv_) and m.valid(s, j == jv_)):
+        if m.valid(s, z3.ULE(j, i)):
+            iv_, jv_ = 1, 0                 # every value on this path has end <= start: the substring is empty
+        elif not (m.valid(s, i == iv_) and m.valid(s, j == jv_)):
             # several values share this path: the expected substring must be the same for all of them
             a_ = min(iv_, nchar); b_ = min(jv_, nchar)
-            same = z3.And(z3.If(z3.ULT(i, nchar), i, z3.BitVecVal(nchar, 64)) == a_, z3.If(z3.ULT(j, nchar), j, z3.BitVecVal(nchar, 64)) == b_, z3.ULE(j, i) == (jv_ <= iv_))
+            same = z3.And(z3.If(z3.ULT(i, nchar), i, z3.BitVecVal(nchar, 64)) == a_, z3.If(z3.ULT(j, nchar), j, z3.BitVecVal(nchar, 64)) == b_, z3.UGT(j, i))
             if not m.valid(s, same): raise Inconclusive('substring indices not determined by the path')
         offs = [c[0] for c in chars] + [len(flat)]
         a_ = offs[min(iv_, nchar)]; b_ = offs[min(jv_, nchar)]
@@ -290,4 +295,4 @@ def with_indices_job(jid, text, kind='str', flavour='mir'):
         J.prove(m, s, bytes_eq(got, exp), 'C19/C16: substring(%d, %d) is not the char-wise substring' % (iv_, jv_), mf)
         J.see('nonempty' if exp else 'empty')
     J.samples.append({'text': text, 'kind': kind, 'indices': 'symbolic in [0, chars+1] or usize::MAX'})
-    return J.result(required_witnesses=['nonempty', 'empty'])
+    return J.result(required_witnesses=['nonempty', 'empty'] if nchar else ['empty'])
